@@ -40,6 +40,42 @@ fn main() {
             let r = rads(f32::from_bits(a[0])).wrap(rads(f32::from_bits(a[1])), rads(f32::from_bits(a[2]))).to_rads();
             println!("{:08x}", r.to_bits());
         }
+        // float colour conversions: bits of 3 inputs, bits of 3 outputs
+        "hsl-to-rgb-vectors" | "rgb-to-hsl-vectors" => {
+            use re::math::color::{hsl, rgb};
+            let g = [0.0f32, 0.1, 0.25, 0.33333334, 0.5, 0.6, 0.75, 0.9, 1.0];
+            for (i, a) in g.iter().enumerate() {
+                for (j, b) in g.iter().enumerate() {
+                    for (k, c) in g.iter().enumerate() {
+                        if (i + 2 * j + 3 * k) % 3 != 0 { continue; }
+                        let o = if what == "hsl-to-rgb-vectors" {
+                            match std::panic::catch_unwind(|| hsl(*a, *b, *c).to_rgb().0) { Ok(v) => v, Err(_) => continue }
+                        } else {
+                            rgb(*a, *b, *c).to_hsl().0
+                        };
+                        println!("{:08x} {:08x} {:08x} {:08x} {:08x} {:08x}", a.to_bits(), b.to_bits(), c.to_bits(), o[0].to_bits(), o[1].to_bits(), o[2].to_bits());
+                    }
+                }
+            }
+        }
+        "hsl-to-rgb-at" | "rgb-to-hsl-at" => {
+            use re::math::color::{hsl, rgb};
+            let a: Vec<f32> = std::env::args().skip(2).map(|s| f32::from_bits(u32::from_str_radix(&s, 16).unwrap())).collect();
+            let r = std::panic::catch_unwind(|| if what == "hsl-to-rgb-at" { hsl(a[0], a[1], a[2]).to_rgb().0 } else { rgb(a[0], a[1], a[2]).to_hsl().0 });
+            match r {
+                Ok(o) => println!("{:08x} {:08x} {:08x}", o[0].to_bits(), o[1].to_bits(), o[2].to_bits()),
+                Err(_) => println!("PANIC"),
+            }
+        }
+        "rgb-roundtrip-at" => {
+            use re::math::color::rgb;
+            let a: Vec<f32> = std::env::args().skip(2).map(|s| f32::from_bits(u32::from_str_radix(&s, 16).unwrap())).collect();
+            let r = std::panic::catch_unwind(|| rgb(a[0], a[1], a[2]).to_hsl().to_rgb().0);
+            match r {
+                Ok(o) => println!("{:08x} {:08x} {:08x}", o[0].to_bits(), o[1].to_bits(), o[2].to_bits()),
+                Err(_) => println!("PANIC"),
+            }
+        }
         "floor-vectors" => {
             for (x, _) in float_vectors() {
                 let r = re::math::float::fallback::floor(x);
